@@ -7,17 +7,19 @@ import sys
 
 VERIF = os.path.dirname(os.path.dirname(os.path.abspath(__file__)))
 
-# id -> (level, technique, level text, level note, design ref)
-CLAIMED = {
-    "C18": ("model_checking",
-            "TLA+ spec FlowMap: TLC exhaustive + TLC-generated behaviours replayed on hashmap + TLC trace validation of seeded runs",
-            "FlowMap.tla is an ordinary additive map by construction; TLC checks its algebra exhaustively, every TLC behaviour "
-            "(depth 3 exhaustive, depth 60 simulated) is replayed on the real map with Len/Get/full iteration compared after "
-            "every step, and long implementation traces (hundreds to thousands of keys, iteration and merge while growing) are "
-            "accepted by TLC as behaviours of the spec.",
-            "Trusts the harness' key concretisation/projection and TLC; key bytes and counters are sampled from the seed, sizes bounded "
-            "by the driver (quick 600 keys, thorough 3000).", "6.5"),
-}
+import importlib
+import glob
+sys.path.insert(0, os.path.join(VERIF, "lib"))
+sys.path.insert(0, VERIF)
+
+# Every checks/cNN.py that defines MANIFEST = {"level","technique","text","note","ref"} is claimed.
+CLAIMED = {}
+for f in sorted(glob.glob(os.path.join(VERIF, "checks", "c[0-9]*.py"))):
+    name = os.path.basename(f)[:-3]
+    mod = importlib.import_module("checks." + name)
+    m = getattr(mod, "MANIFEST", None)
+    if m:
+        CLAIMED[name.upper()] = (m["level"], m["technique"], m["text"], m["note"], m["ref"])
 
 PENDING_REASON = "check not built yet in this round (planned, see DESIGN.md section 6); not claimed until its machinery exists"
 
